@@ -323,6 +323,14 @@ def check_grads(ses, beh, built, rows, floating, targets):
     sem = ses.flags[0]
     x = built.batch(rows, floating=floating)
     outs = {}
+    nb = len(beh["bases"])
+    # rows at which some input unit is exactly zero: in the log-space semirings such a unit is
+    # represented by log 0, where the representation (not the function) is not differentiable;
+    # the equality clause is evaluated on the other rows (DESIGN.md, C13 scope note)
+    zrows = set()
+    if sem != "sum-product":
+        zrows = zero_rows(beh, rows) | {q for q, z in enumerate(beh.get("zerorows") or []) if z}
+    keep = np.array([q not in zrows for q in range(len(rows))])
     for g in beh["grads"]:
         li, u, j = g["th"]
         leaf = built.leaves[li - 1]
@@ -342,6 +350,10 @@ def check_grads(ses, beh, built, rows, floating, targets):
         for i, cc in ses.compiled.items():
             dtab = g["d"][i]
             if not dtab or (targets is not None and ses.ops[i] not in targets):
+                continue
+            if leaf.kind == "catp" and i >= nb:
+                # a probability-parameterised categorical is normalised by definition: its
+                # integral is the constant 1, not the sum of the (unconstrained) entries
                 continue
             if i not in outs:
                 try:
@@ -373,12 +385,13 @@ def check_grads(ses, beh, built, rows, floating, targets):
                 bad = True
             if sem != "sum-product":
                 # out = log f  =>  d out = f'/f ; compare f' = d out * f where f != 0
-                nz = np.abs(f) > 0
-                if not np.all(np.isfinite(obs[nz])):
+                nz = (np.abs(f) > 0) & keep[:, None, None]
+                if not np.all(np.isfinite(obs[np.abs(f) > 0])):
                     ses.fail("grad_nonfinite", pool=i, op=ses.ops[i], th=g["th"],
                              detail=f"non-finite gradient where the value is non-zero: {obs.tolist()}"[:400])
                     continue
-                obs_lin = np.where(nz, obs * f, want)
+                with np.errstate(invalid="ignore"):
+                    obs_lin = np.where(nz, obs * f, want)
             else:
                 obs_lin = obs
                 if not np.all(np.isfinite(obs)):
@@ -388,6 +401,30 @@ def check_grads(ses, beh, built, rows, floating, targets):
             if bad or not close(obs_lin, want, rtol=1e-8):
                 ses.fail("grad_value", pool=i, op=ses.ops[i], th=g["th"],
                          detail=f"observed {obs_lin.tolist()} expected {want.tolist()}"[:600])
+
+
+def zero_rows(beh, rows):
+    """indices of the assignments at which some input-layer unit evaluates to exactly zero"""
+    out = set()
+    for st in beh["stores"][:1]:
+        for l, m in zip(beh["layers"], st):
+            if l["kind"] in ("const", "clog"):
+                if any(int(e[0][0]) == 0 and int(e[1][0]) == 0 for row in m for e in row):
+                    return set(range(len(rows)))
+            elif l["kind"] in ("emb", "catp", "catl", "binom"):
+                for q, r in enumerate(rows):
+                    xv = r[l["var"] - 1]
+                    if any(int(row[xv][0][0]) == 0 and int(row[xv][1][0]) == 0 for row in m):
+                        out.add(q)
+            elif l["kind"] == "poly":
+                for q, r in enumerate(rows):
+                    xv = r[l["var"] - 1]
+                    for row in m:
+                        re = sum(nums.dy(c[0]) * xv ** d for d, c in enumerate(row))
+                        im = sum(nums.dy(c[1]) * xv ** d for d, c in enumerate(row))
+                        if re == 0 and im == 0:
+                            out.add(q)
+    return out
 
 
 # ---------------------------------------------------------------------------------- queries
